@@ -332,11 +332,24 @@ SPEC = {
     'rx_found': lambda ev, v, buf: v.search(buf, 0) is not None,
     'rx_start': lambda ev, v, buf: _m(v, buf).start(), 'rx_end': lambda ev, v, buf: _m(v, buf).end(),
     'using': None,
+    'deferred_agrees': lambda ev, fn, pkt, expected: _deferred_agrees(fn, pkt, expected),
+    'istuple': lambda ev, v, n: isinstance(v, tuple) and len(v) == n,
+    'tupitem': lambda ev, v, n, i: v[i],
+    'same': lambda ev, a, b: (a is b) or (type(a) is type(b) and isinstance(a, (int, bytes, str, bool, type(None))) and a == b),
 }
 
 
 def _undef():
     raise Undefined('undefined')
+
+
+def _deferred_agrees(fn, pkt, expected):
+    kind, val = expected
+    try:
+        got = fn(pkt=pkt)
+    except Exception as e:
+        return kind == 'raise' and type(e).__name__ == val
+    return kind == 'ok' and type(got) is type(val) and got == val
 
 
 def _m(v, buf):
@@ -446,9 +459,11 @@ def run_case(contract, fn, args, quant_old=True):
     call_args = []
     kw = {}
     for name, v in args.items():
+        if name.startswith('ghost_'):
+            continue
         if isinstance(v, Kw):
             kw = dict(v)
-        elif not name.startswith('ghost_'):
+        else:
             call_args.append(v)
     failed = []
     try:
